@@ -321,9 +321,11 @@ def _merge(ancestor, our, their, allowed=None):
         )
     unmergeable = list(diff(patch_ours_first, patch_theirs_first))
     if unmergeable:
-        unmergeable_paths = []
-        for paths in patch(unmergeable, {}):
-            unmergeable_paths.append(posixpath.join(*paths))
+        unmergeable_paths = sorted(
+            posixpath.join(*key)
+            for key in patch_ours_first.keys() | patch_theirs_first.keys()
+            if patch_ours_first.get(key) != patch_theirs_first.get(key)
+        )
         raise MergeError(
             "unable to auto-merge the following paths:\n" + "\n".join(unmergeable_paths)
         )
